@@ -65,7 +65,11 @@ def schema_text(tmpl):
                              for i in range(nf) if not onattr[i])
     if tmpl.get('idel'):
         fields_decl_el += ('<xs:element name="ide" type="xs:ID" minOccurs="0"/>'
-                           '<xs:element name="refe" type="xs:IDREF" minOccurs="0"/>')
+                           '<xs:element name="refe" type="xs:IDREF" minOccurs="0"/>'
+                           # children with simple content that carry an xs:ID attribute of their own
+                           '<xs:element name="note" minOccurs="0" maxOccurs="unbounded"><xs:complexType><xs:simpleContent>'
+                           '<xs:extension base="xs:string"><xs:attribute name="id" type="xs:ID"/></xs:extension>'
+                           '</xs:simpleContent></xs:complexType></xs:element>')
     row = ('<xs:complexType><xs:sequence>%s</xs:sequence>%s<xs:attribute name="id" type="xs:ID"/>'
            '<xs:attribute name="ref" type="xs:IDREF"/></xs:complexType>' % (fields_decl_el, fields_decl_attr))
     fields = ''.join('<xs:field xpath="%s"/>' % ('@a%d' % i if onattr[i] else '%sc%d' % (px, i)) for i in range(nf))
@@ -113,6 +117,8 @@ def render_row(tag, row, tmpl):
         kids += '<ide%s>%s</ide>' % (rb, row['ide'])
     if row.get('refe'):
         kids += '<refe%s>%s</refe>' % (rb, row['refe'])
+    for nid in row.get('notes', []):
+        kids += '<note id="%s">n</note>' % nid
     return '<%s%s>%s</%s>' % (tag, attrs, kids, tag)
 
 
@@ -214,6 +220,7 @@ def doc_ids(case):
                     ids.append(row['ide'])
                 if row.get('refe'):
                     refs.append(row['refe'])
+                ids.extend(row.get('notes', []))      # the ID attribute of a note identifies the note element
     return ids, refs
 
 
@@ -326,6 +333,9 @@ def rand_row(rng, tmpl, p_missing=0.2, ids=None):
                 row['ide'] = rng.choice(['i1', 'i2', 'i3', 'i5'])
             elif r < 0.4:
                 row['refe'] = rng.choice(['i1', 'i2', 'i5'])
+            if rng.random() < 0.25:
+                # same value on sibling notes, or the value of the row's own ID: distinct elements, so a duplicate
+                row['notes'] = [rng.choice(['i1', 'i6', 'i7', row.get('id') or 'i6']) for _ in range(rng.randint(1, 2))]
     return row
 
 
@@ -502,9 +512,101 @@ def check_recursive_scope(ctx):
             ctx.violation('nested instances of a scope element: %s: error counts (duplicate, dangling) impl=%s model=%s'
                           % (c['xml'], (o['dup'], o['dangling']), (ndup, ndang)), dict(rep, theorem='C08_scope_independent'), no_input=True)
 
+# ---- selected nodes that exist only in the content of a derived type reached through xsi:type
+XSIEXT_XSD = ('<xs:schema xmlns:xs="http://www.w3.org/2001/XMLSchema">'
+              '<xs:complexType name="Item"><xs:attribute name="k" type="xs:integer"/></xs:complexType>'
+              '<xs:complexType name="Base"><xs:sequence><xs:element name="item" type="Item" minOccurs="0" maxOccurs="unbounded"/>'
+              '</xs:sequence></xs:complexType>'
+              '<xs:complexType name="Ext"><xs:complexContent><xs:extension base="Base"><xs:sequence>'
+              '<xs:element name="extra" type="Item" minOccurs="0" maxOccurs="unbounded"/></xs:sequence></xs:extension>'
+              '</xs:complexContent></xs:complexType>'
+              '<xs:element name="box" type="Base"/>'
+              '<xs:element name="root"><xs:complexType><xs:choice maxOccurs="unbounded">'
+              '<xs:element name="sec"><xs:complexType><xs:sequence><xs:element ref="box" maxOccurs="unbounded"/></xs:sequence>'
+              '</xs:complexType><xs:unique name="u"><xs:selector xpath=".//extra"/><xs:field xpath="@k"/></xs:unique></xs:element>'
+              '<xs:element ref="box"/></xs:choice></xs:complexType></xs:element></xs:schema>')
+XSIEXT_K = [('1', 1), ('01', 1), ('2', 2), ('+2', 2), ('3', 3), ('7', 7)]
+
+
+def gen_xsiext_doc(rng):
+    def box(in_sec):
+        ext = rng.random() < 0.7
+        return {'ext': ext, 'items': [rng.randrange(len(XSIEXT_K)) for _ in range(rng.randint(0, 2))],
+                'extras': [rng.randrange(len(XSIEXT_K)) for _ in range(rng.randint(0, 3))] if ext else []}
+    parts = []
+    for _ in range(rng.randint(1, 5)):
+        if rng.random() < 0.6:
+            parts.append({'sec': [box(True) for _ in range(rng.randint(1, 2))]})
+        else:
+            parts.append({'box': box(False)})
+    return parts
+
+
+def render_xsiext(parts):
+    def rbox(b):
+        return '<box%s>%s%s</box>' % (' xsi:type="Ext"' if b['ext'] else '', ''.join('<item k="%s"/>' % XSIEXT_K[i][0] for i in b['items']),
+                                     ''.join('<extra k="%s"/>' % XSIEXT_K[i][0] for i in b['extras']))
+    return ('<root xmlns:xsi="http://www.w3.org/2001/XMLSchema-instance">%s</root>'
+            % ''.join('<sec>%s</sec>' % ''.join(rbox(b) for b in p['sec']) if 'sec' in p else rbox(p['box']) for p in parts))
+
+
+def subject_xsiext(case):
+    """a history: the documents are validated in order with one schema instance"""
+    import xmlschema
+    s = (xmlschema.XMLSchema11 if case['version'] == '1.1' else xmlschema.XMLSchema10)(XSIEXT_XSD)
+    out = []
+    for parts in case['docs']:
+        xml = render_xsiext(parts)
+        try:
+            errs = [str(e.reason or '') for e in s.iter_errors(xml)]
+            out.append({'valid': s.is_valid(xml), 'dup': sum('duplicated value' in r for r in errs),
+                        'other': [r[:100] for r in errs if 'duplicated value' not in r]})
+        except Exception as e:  # noqa
+            out.append({'exc': common.exc_class(e) + ': ' + str(e)[:160]})
+    return out
+
+
+def check_xsi_extension(ctx, cases=None):
+    """unique on <sec> with selector .//extra: the selected elements are declared only in the extension type Ext of the
+    global element box, which also occurs outside any <sec>; histories of 1-3 documents per schema instance"""
+    rng = ctx.rng
+    if cases is None:
+        cases = [{'version': '1.1' if i % 2 else '1.0', 'docs': [gen_xsiext_doc(rng) for _ in range(rng.randint(1, 3))]}
+                 for i in range(80 if ctx.quick() else 1500)]
+    impl = common.pool_map(subject_xsiext, cases)
+    terms = []
+    for c in cases:
+        for parts in c['docs']:
+            scopes = [[XSIEXT_K[i][1] for b in p['sec'] for i in b['extras']] for p in parts if 'sec' in p]
+            terms.append('(length (filter (fun e => match e with Dup _ => true | _ => false end) (doc_errors %s)))'
+                         % coq_list(['{| s_key := []; s_unique := %s; s_keyref := [] |}' % coq_list([coq_tuple([v]) for v in sc])
+                                     for sc in scopes]))
+    model = iter(common.coq_eval('C08x', IMPORTS, '', terms, shard=300))
+    for c, o in zip(cases, impl):
+        if isinstance(o, dict):
+            ctx.violation('xsi:type extension family failed to run: %s' % o.get('harness_exception'), {'kind': 'xsiext', 'case': c}, no_input=True)
+            continue
+        for k, (parts, r) in enumerate(zip(c['docs'], o)):
+            xml = render_xsiext(parts)
+            ndup = next(model)
+            rep = {'kind': 'xsiext', 'case': dict(c, docs=c['docs'][:k + 1]), 'xml': xml, 'xsd': XSIEXT_XSD, 'impl': r,
+                   'history': [render_xsiext(p) for p in c['docs'][:k]]}
+            ctx.count(('xsiext', c['version'], k, xml, tuple(rep['history'])), nontrivial=ndup > 0 or len(parts) >= 3)
+            ctx.dist('xsi:type extension family', 'document %d of its history, model %s' % (k + 1, 'invalid' if ndup else 'valid'))
+            if 'exc' in r:
+                ctx.violation('validation raised %s for %s' % (r['exc'], xml), rep)
+            elif r['valid'] != (ndup == 0) or r['other']:
+                ctx.violation('%s is %s after the history %s; the unique constraint over .//extra of each <sec> says %s (%d duplicates)%s'
+                              % (xml, 'accepted' if r['valid'] else 'rejected', rep['history'], 'valid' if ndup == 0 else 'invalid', ndup,
+                                 '; unexpected errors %s' % r['other'][:2] if r['other'] else ''), dict(rep, theorem='C08_unique_exact'))
+            elif r['dup'] != ndup:
+                ctx.violation('%s: %d duplicates reported, the model has %d' % (xml, r['dup'], ndup), dict(rep, theorem='C08_unique_exact'),
+                              no_input=True)
+
 
 def run(ctx):
     check_recursive_scope(ctx)
+    check_xsi_extension(ctx)
     cases = gen(ctx)
     ctx.rule = ('tables of field tuples for key / unique / keyref in 1-3 scope instances: exhaustive 2-3 row tables over '
                 '{absent, two lexical forms of one value, another value} x 2 fields (%s), seeded random templates '
@@ -518,4 +620,7 @@ def run(ctx):
 
 
 def replay(ctx, case):
-    evaluate(ctx, [case['case']])
+    if case.get('kind') == 'xsiext':
+        check_xsi_extension(ctx, [case['case']])
+    else:
+        evaluate(ctx, [case['case']])
